@@ -149,6 +149,37 @@ def get_state(kind, nv):
     return _STATES[key]
 
 
+def index_public(states):
+    """the index of basis vectors through PUBLIC calls only: `rotate_psi_inner_prod` in the all-Z basis looks the given states up in a
+    user-supplied wavefunction; with psi[k] = k the amplitude it returns IS the position the library assigns to the state"""
+    from qucumber.utils.unitaries import rotate_psi_inner_prod
+
+    t = states if states.dim() == 2 else states.unsqueeze(0)
+    n = t.shape[-1]
+    psi = torch.zeros(2, 2 ** n, dtype=torch.double)
+    psi[0] = torch.arange(2 ** n, dtype=torch.double)
+    out = rotate_psi_inner_prod(get_state("pos", n), "Z" * n, t.to(torch.double), psi=psi)[0]
+    return out if states.dim() == 2 else out[0]
+
+
+PUBLIC_INDEX_MAX = 16
+
+
+def index_fn(ctx, n):
+    """the library's vector -> index map: the helper the property anchors (`unitaries._convert_basis_element_to_index`, a private name), or -
+    when a rewrite has renamed / inlined it - the public route `index_public` (n <= 16; None beyond: the case is counted and skipped)"""
+    from qucumber.utils import unitaries as U
+
+    f = getattr(U, "_convert_basis_element_to_index", None)
+    if f is not None:
+        return f
+    ctx.count("index:private-helper-missing")
+    if 1 <= n <= PUBLIC_INDEX_MAX:
+        return index_public
+    ctx.count("index:private-helper-missing:skipped(n>16)")
+    return None
+
+
 def eff_size(size, nv):
     return size if size else nv
 
@@ -321,7 +352,7 @@ def space_case(ctx, case):
     ctx.count(f"space:eff_size={s}")
     ctx.count("space:size_arg=" + ("None" if size is None else "0" if size == 0 else "given"))
     ctx.case({"k": "space", **case}, nontrivial=s >= 2, sample={"op": "generate_hilbert_space", "state": kind, "nv": nv, "size": size})
-    from qucumber.utils.unitaries import _convert_basis_element_to_index as conv
+    conv = index_fn(ctx, s)
     try:
         sz_arg = as_form(size, case.get("size_form"))
         kw = dev_kw(case.get("device_form"))
@@ -370,10 +401,11 @@ def space_case(ctx, case):
         bad = [k for k, r in zip(ks, rows) if r != bits_of(k, s)]
         ctx.oracle("sampled rows == big-endian bits", not bad, case, sig="space/order", theorem=TH["space"],
                    detail={"bad_rows": bad[:5]})
-    idx = conv(sp[ks] if not full else sp)
-    idxl = [int(x) for x in idx.tolist()]
-    ctx.oracle("index(row k) == k", idxl == ks and all(float(x) == int(x) for x in idx.tolist()), case, sig="index/roundtrip",
-               theorem=TH["index"], detail={"first_bad": next((k for k, i in zip(ks, idxl) if k != i), None)})
+    if conv is not None:
+        idx = conv(sp[ks] if not full else sp)
+        idxl = [int(x) for x in idx.tolist()]
+        ctx.oracle("index(row k) == k", idxl == ks and all(float(x) == int(x) for x in idx.tolist()), case, sig="index/roundtrip",
+                   theorem=TH["index"], detail={"first_bad": next((k for k, i in zip(ks, idxl) if k != i), None)})
     # subspace_vector(k, size) == row k   (a subset when the space is big)
     sub_ks = ks if len(ks) <= 64 else sorted(set(random.Random(case.get("ks_seed", 0) + 1).sample(ks, 48) + [0, ks[-1], ks[len(ks) // 2]]))
     subs = []
@@ -393,11 +425,13 @@ def space_case(ctx, case):
         if full:
             m = ctx.driver.call("c19.space", size=size, nv=nv)
             ctx.point("generate_hilbert_space", "property", rows, m.get("rows"), case, exact=True, sig="space/order", theorem=TH["space"])
-            ctx.point("index of every row", "property", idxl, m.get("index"), case, exact=True, sig="index/roundtrip", theorem=TH["index"])
+            if conv is not None:
+                ctx.point("index of every row", "property", idxl, m.get("index"), case, exact=True, sig="index/roundtrip", theorem=TH["index"])
         m2 = ctx.driver.call("c19.rows", size=size, nv=nv, ks=ks if not full else sub_ks)
         if not full:
             ctx.point("generate_hilbert_space rows", "property", rows, m2.get("rows"), case, exact=True, sig="space/order", theorem=TH["space"])
-            ctx.point("index of sampled rows", "property", idxl, m2.get("index"), case, exact=True, sig="index/roundtrip", theorem=TH["index"])
+            if conv is not None:
+                ctx.point("index of sampled rows", "property", idxl, m2.get("index"), case, exact=True, sig="index/roundtrip", theorem=TH["index"])
             msub = [m2["sub"][ks.index(k)] for k in sub_ks]
         else:
             msub = m2["sub"]
@@ -431,9 +465,11 @@ def subspace_case(ctx, case):
 
 def index_case(ctx, case):
     """_convert_basis_element_to_index on a batch (2-D) and on each row (1-D call form)."""
-    from qucumber.utils.unitaries import _convert_basis_element_to_index as conv
     states = case["states"]
     n = len(states[0]) if states else 0
+    conv = index_fn(ctx, n)
+    if conv is None:
+        return
     ctx.case({"k": "index", **case}, nontrivial=n >= 2 and any(any(r) for r in states) and not all(all(r) for r in states),
              sample={"op": "_convert_basis_element_to_index", "n": n, "batch": len(states), "first": states[0] if states else None})
     ctx.count(f"index:n={n}")
@@ -459,7 +495,7 @@ def index_case(ctx, case):
     if len(states) >= 2:
         a, b = states[0], states[1]
         ia, ib = want[0], want[1]
-        iab = int(conv(torch.tensor(a + b, dtype=torch.double))) if 2 * n <= 52 else None
+        iab = int(conv(torch.tensor(a + b, dtype=torch.double))) if 2 * n <= (52 if conv is not index_public else PUBLIC_INDEX_MAX) else None
         if iab is not None:
             ctx.oracle("idx(a++b) == idx(a)*2^|b| + idx(b)", iab == ia * 2 ** len(b) + ib, case, sig="index/concat", theorem=TH["kron"])
     if ctx.driver is not None:
